@@ -170,6 +170,11 @@ def rand_days(rng, extreme=False):
     pick = lambda: rng.choice(ts) + rng.choice([0, 0, 1, -1, DAY, -DAY, rng.randrange(-3 * DAY, 3 * DAY)])  # noqa
     start = pick() if rng.random() < 0.6 else None
     end = pick() if rng.random() < 0.6 else None
+    if not extreme and rng.random() < 0.12:
+        # timestamps straddling the Unix epoch with the epoch itself (POSIX 0.0, a falsy number) as an explicit bound
+        ts = [EPOCH + rng.randrange(-3, 4) * DAY + rng.choice([0, 1, -1, rng.randrange(DAY)]) for _ in range(n)]
+        start = EPOCH if rng.random() < 0.7 else start
+        end = EPOCH if (start != EPOCH and rng.random() < 0.7) else (EPOCH + 5 * DAY if rng.random() < 0.5 else None)
     return c_days(ts, filt, fdt, start, end)
 
 
